@@ -57,7 +57,7 @@ ENGINES = [
  {"name": "tlc-alloc", "path": "spec/TraceAlloc.tla", "serves_properties": ["C17"], "kind_free_text": "TLC model checking of the ledger rule (RegionsMC) and TLC trace validation of recorded capacities / allocator calls (harness alloc-run) with TraceAlloc.tla"},
  {"name": "tlc-huffman", "path": "spec/HuffmanMC.tla", "serves_properties": ["C06"], "kind_free_text": "TLC model checking of HuffmanMC.tla, scenario execution (harness huff-run) and TLC trace validation with TraceHuffman.tla"},
  {"name": "tlc-dictionary", "path": "spec/DictMC.tla", "serves_properties": ["C07"], "kind_free_text": "TLC model checking of DictMC.tla, scenario execution (harness dict-run) and TLC trace validation with TraceDict.tla"},
- {"name": "tlc-index", "path": "spec/ICMC.tla", "serves_properties": ["C05", "C19"], "kind_free_text": "TLC explicit-state model checking of IndexContainers.tla over Word64 + transition replay (harness ic-replay)"},
+ {"name": "tlc-index", "path": "spec/ICMC.tla", "serves_properties": ["C05", "C19"], "kind_free_text": "TLC explicit-state model checking of IndexContainers.tla over Word64 + transition replay (harness ic-replay) + TLC trace validation of long walks (TraceIC.tla); thorough tier additionally checks the unbounded step theorems of spec/proofs with tlapm"},
  {"name": "tlc-regions", "path": "spec/RegionsMC.tla", "serves_properties": [k for k, v in CLAIMED.items() if v[0] == "tlc-regions"], "kind_free_text": "TLC model checking of the region algebra Regions.tla over the typed catalogue + transition replay (harness replay)"},
  {"name": "tlc-flatstack", "path": "spec/FlatStackMC.tla", "serves_properties": ["C03"], "kind_free_text": "TLC model checking of FlatStackMC.tla + transition replay (harness stack-replay)"},
 ]
